@@ -77,6 +77,19 @@ CHECKS.update({
         ref="5/C06"),
 })
 
+CHECKS.update({
+    "C18": dict(
+        technique="TLA+ spec of the broadcast-notification acceptance algorithm and of the per-step requirement (spec/ble/BleBroadcast.tla) model-checked by TLC as action properties; TLC-exported histories and -simulate behaviours sealed by an independent ChaCha20-Poly1305 and fed to the real BleController._device_detected; every recorded execution validated by TLC against BleBroadcast_Trace",
+        text="TLC checks OnlyAuthenticFresh / AcceptedDelivered / MonotoneLast / ReplayNeverAccepted / StepAllowed on every history <=3 (two pairings + foreign key) and <=6 (one pairing) for window 3, and for the real window 99 over offsets {-1000..+1000}. Every history of <=2 (thorough <=3) advertisement classes, simulated behaviours including key installation through the real derivation path, seeded random histories over all ten characteristic formats and boundary values, truncations, bit-for-bit replays and all 128 single-bit corruptions are executed on the real controller; after each advertisement the listener calls and description.state_num must be a step the specification allows.",
+        note="Ideal AEAD in the model (4-byte-tag forgery probability 2^-32 per candidate on the real code). Trusted: TLC, harness/vloop.py, the sealer and value tables in harness/c18_driver.py, harness/refacc pair-verify. Beyond-window advertisements may be accepted or ignored (weaker reading). Wrap-around at 65535 is outside the histories; the GATT write of the key-generation request is stubbed.",
+        ref="5/C18"),
+    "C19": dict(
+        technique="TLA+ spec of the per-id future lists of the mDNS and BLE finders and of the aggregate finder (spec/discovery/Discovery.tla) model-checked by TLC over all interleavings, plus DiscoveryParse.tla for abstract advertisement classes; TLC-exported parse classes and -simulate behaviours executed on the real IpController / CoAPController / BleController / Controller on a virtual-time loop; recorded timed event traces validated by TLC against Discovery_Trace",
+        text="TLC checks NoLostWakeup / AlreadyKnownReturnsAtOnce / TimeoutGivesNotFound / CallbackNeverRaises / OtherWaitersUndisturbed / AggFirstSuccessWins / AggNoSubtaskLeft for 3 waiters x 2 ids per flavour and for one aggregate call over three transports, and must refute them when the repair switches are off. All 15.5k (thorough 81.6k) TXT / address-list / manufacturer-data classes are processed by the real callbacks with no, cached or uncached pairing loaded and compared with the specified outcome; TLC behaviours and seeded schedules with cancel / time-out races placed between loop iterations are traced in virtual time: a call the specification completes must return at that very instant with the right result.",
+        note="Trusted: TLC, harness/vloop.py, the in-process stubs (zeroconf browser and cache as in the repo's tests, refused TCP, no CoAP context), CPython 3.12 Task / time-out semantics as modelled. BLE and aggregate callers use lower-case ids. The outcome of a cancelled aggregate call is left open.",
+        ref="5/C19"),
+})
+
 NOT_APPLICABLE = {
     "C02": "Byte-for-byte numeric equality of SRP-6a over a 3072-bit group with SHA-512: no state, schedule or history to model, TLC integers are 32-bit; a TLA+ transcription over a toy group would say nothing about the hard-coded constants. See DESIGN.md section 5/C02.",
 }
